@@ -168,6 +168,56 @@ pub fn run_proof<G: Cv>(env: &Env<G>, prog: &Program, seed: u64) -> Out {
             }
         }
     }
+    // the same invalid contents in encodings whose two point lists have different lengths: the bad
+    // point sits in the unpaired tail of the longer list (a decoder that validates L and R pairwise
+    // would skip it). Counts are rewritten; the other added points are copies of a valid one.
+    let good = bytes[Parts::<G>::offset_of_point(0)..Parts::<G>::offset_of_point(0) + pl].to_vec();
+    let lc = Parts::<G>::offset_l_count();
+    let rc = Parts::<G>::offset_r_count(kk);
+    let build = |l: &[Vec<u8>], r: &[Vec<u8>]| -> Vec<u8> {
+        let mut x = bytes[..lc].to_vec();
+        x.extend_from_slice(&(l.len() as u64).to_le_bytes());
+        for q in l { x.extend_from_slice(q); }
+        x.extend_from_slice(&(r.len() as u64).to_le_bytes());
+        for q in r { x.extend_from_slice(q); }
+        x.extend_from_slice(&bytes[tail..]);
+        x
+    };
+    let lpts: Vec<Vec<u8>> = (0..kk).map(|j| bytes[lc + 8 + j * pl..lc + 8 + (j + 1) * pl].to_vec()).collect();
+    let rpts: Vec<Vec<u8>> = (0..kk).map(|j| bytes[rc + 8 + j * pl..rc + 8 + (j + 1) * pl].to_vec()).collect();
+    // control: the rebuilt equal-length encoding is the original one
+    out.checks += 1;
+    if build(&lpts, &rpts) != bytes {
+        out.bad.push((key("harness: rebuilt encoding"), "original bytes".into(), "different".into()));
+        return out;
+    }
+    let mut uneven: Vec<(String, Vec<Vec<u8>>, Vec<Vec<u8>>, bool, usize)> = Vec::new(); // (name, l, r, bad in l?, index)
+    for e in 1..=2usize {
+        for j in 0..e {
+            let mut l = lpts.clone();
+            l.extend(std::iter::repeat(good.clone()).take(e));
+            uneven.push((format!("L+{} tail[{}]", e, j), l, rpts.clone(), true, kk + j));
+            let mut r = rpts.clone();
+            r.extend(std::iter::repeat(good.clone()).take(e));
+            uneven.push((format!("R+{} tail[{}]", e, j), lpts.clone(), r, false, kk + j));
+        }
+    }
+    if kk >= 1 {
+        uneven.push(("L-1, R last".into(), lpts[..kk - 1].to_vec(), rpts.clone(), false, kk - 1));
+        uneven.push(("R-1, L last".into(), lpts.clone(), rpts[..kk - 1].to_vec(), true, kk - 1));
+    }
+    for (uname, l, r, in_l, at) in &uneven {
+        for (bname, b) in bad_points::<G>() {
+            let (mut l, mut r) = (l.clone(), r.clone());
+            if *in_l { l[*at] = b.clone(); } else { r[*at] = b.clone(); }
+            let x = build(&l, &r);
+            out.bad_slots += 1;
+            match guarded(|| R1CSProof::<G>::from_bytes(&x)) {
+                Ok(Err(_)) => {}
+                other => out.bad.push((json!({"curve": G::NAME, "program": prog.name(), "check": "invalid point in the unpaired tail of unequal point lists", "shape": uname, "value": bname}), "Err(FormatError)".into(), format!("{:?}", other.map(|r| r.map(|_| "Ok(proof)"))))),
+            }
+        }
+    }
     out
 }
 
